@@ -21,6 +21,7 @@ import Reamber.Lemmas.SMScan
 import Reamber.Props.C10
 import Reamber.Lemmas.TimingInverse
 import Reamber.Lemmas.SMText
+import Reamber.Lemmas.SMPairInv
 import Reamber.Lemmas.Snapper
 import Mathlib.Tactic.NormNum
 import Reamber.Generated.SMTables
@@ -441,6 +442,21 @@ theorem string_line_roundtrip (ta : Str × Str) (hta : ta ∈ stringTags) (v : S
     List.tail_cons]
   have hct : commentTrick ta.1 = ta.1 := by simp [commentTrick, h3]
   simp only [hct, h5, bind, Except.bind, hs]
+
+/-- **`pairing_inverse`.**  For any notes whose holds/rolls have `beat < endBeat` and do not overlap (nor touch) within
+a column: their events (a tap symbol per tap, a head and a tail symbol per hold/roll) in strictly ascending
+(beat, column) order — the order in which a written chart is read — are paired by the StepMania rule into exactly
+those notes: no unmatched tail, no head over an open head, none left open. -/
+theorem pairing_inverse (evs : List SEv) (N : List DNote) (hsort : evs.Pairwise ltEv)
+    (hperm : evs.Perm (N.flatMap evOf)) (hlen : ∀ n ∈ N, ∀ e, n.endBeat = some e → n.beat < e)
+    (hno : N.Pairwise NoOverlap) :
+    (pairAll evs).ok = true ∧ (pairAll evs).opened = [] ∧ (pairAll evs).notes.Perm N :=
+  SM.pairing_inverse evs N hsort hperm hlen hno
+
+example :
+    let N : List DNote := [⟨.hold, 0, 0, some 2⟩, ⟨.mine, 0, 1, none⟩, ⟨.roll, 0, 3, some 4⟩, ⟨.hit, 1, 0, none⟩]
+    let evs : List SEv := [(0, 0, .head .hold), (1, 0, .tap .hit), (0, 1, .tap .mine), (0, 2, .tail), (0, 3, .head .roll), (0, 4, .tail)]
+    (pairAll evs).ok = true ∧ (pairAll evs).opened = [] ∧ (pairAll evs).notes.length = 4 := by decide +kernel
 
 /-- **`write_read_exact_partial` — one object, end to end in time.**  Let the written `#OFFSET`/`#BPMS` denote `t0` and
 a tempo list `cs` in C10's domain with the 4-beat metronome (`changesOf_written_measure_lines` for measure-line
